@@ -854,20 +854,117 @@ class GT:
                 return self.kind(v["init"], depth + 1)
             return None
         if k == "Cond":
-            c, a, b = n["c"], n["then"], n["else"]
-            if c.get("k") == "MCall" and callee_name(c) == "empty" and b.get("k") == "MCall" and callee_name(b) == "map" and len(b.get("a", [])) == 1:
-                pc, pb = self.rs.path(c.get("obj")), self.rs.path(b.get("obj"))
-                if pc != pb:
-                    return ("bad", "the permutation tested for emptiness (%s) is not the one applied (%s)" % (pc, pb))
-                if render(self.rs.value(a)) != render(self.rs.value(b["a"][0])) or self.rs.path(a) != self.rs.path(b["a"][0]):
-                    return ("bad", "identity branch yields %s but the permutation is applied to %s" % (render(a), render(b["a"][0])))
-                return self.map_kind(b, depth)
-            return None
+            return self.cond_lookup_kind(n, depth)
         if k == "MCall" and callee_name(n) == "map" and len(n.get("a", [])) == 1:
             return self.map_kind(n, depth)
         if k == "MCall" and callee_name(n) == "calc_fcell":
             return self.calc_fcell_kind(n, depth)
         return None
+
+    # ---- guarded permutation lookups -------------------------------------------------------------
+    def guard_formula(self, n, atoms, depth=0):
+        """boolean formula over atoms ('nonempty', permutation path): ('atom', i) | ('not', f) | ('and', f, g) | ('or', f, g) | ('const', b);
+        None if the condition is not understood"""
+        if n is None or depth > 12:
+            return None
+        n = self.rs.value(n)
+        k = n.get("k")
+        if k == "Bool":
+            return ("const", bool(n.get("v")))
+        if k == "Cast":
+            return self.guard_formula(n.get("e"), atoms, depth + 1)
+        if k == "Un" and n.get("op") == "!":
+            f = self.guard_formula(n["e"], atoms, depth + 1)
+            return None if f is None else ("not", f)
+        if k == "Bin" and n.get("op") in ("&&", "||"):
+            f, g = self.guard_formula(n["lhs"], atoms, depth + 1), self.guard_formula(n["rhs"], atoms, depth + 1)
+            return None if f is None or g is None else ("and" if n["op"] == "&&" else "or", f, g)
+
+        def atom(obj):
+            p = self.rs.path(obj)
+            if p.opaque():
+                return None
+            if p not in atoms:
+                atoms.append(p)
+            return ("atom", atoms.index(p))
+        if k == "MCall" and callee_name(n) == "empty" and not n.get("a"):
+            f = atom(n.get("obj"))
+            return None if f is None else ("not", f)
+        if k == "Bin" and n.get("op") in (">", "<", "!=", "==", ">=", "<="):
+            l, r = self.rs.value(n["lhs"]), self.rs.value(n["rhs"])
+            op = n["op"]
+
+            def is_size(x):
+                while x.get("k") == "Cast" or (x.get("k") in ("Construct", "TempObj") and len(x.get("a", [])) == 1):
+                    x = self.rs.value(x.get("e") or x["a"][0])
+                return x if x.get("k") == "MCall" and callee_name(x) == "size" and not x.get("a") else None
+
+            def is_zero(x):
+                while x.get("k") == "Cast" or (x.get("k") in ("Construct", "TempObj") and len(x.get("a", [])) == 1):
+                    x = self.rs.value(x.get("e") or x["a"][0])
+                return x.get("k") == "Int" and str(x.get("v")) == "0"
+            sz, flip = (is_size(l), False) if is_zero(r) else ((is_size(r), True) if is_zero(l) else (None, False))
+            if sz is None:
+                return None
+            if flip:
+                op = {">": "<", "<": ">", ">=": "<=", "<=": ">="}.get(op, op)
+            f = atom(sz.get("obj"))
+            if f is None:
+                return None
+            if op in (">", "!="):          # size() > 0, size() != 0
+                return f
+            if op in ("==", "<="):         # size() == 0, size() <= 0
+                return ("not", f)
+            return None
+        return None
+
+    @staticmethod
+    def eval_formula(f, val):
+        t = f[0]
+        if t == "const":
+            return f[1]
+        if t == "atom":
+            return val[f[1]]
+        if t == "not":
+            return not GT.eval_formula(f[1], val)
+        if t == "and":
+            return GT.eval_formula(f[1], val) and GT.eval_formula(f[2], val)
+        return GT.eval_formula(f[1], val) or GT.eval_formula(f[2], val)
+
+    def cond_lookup_kind(self, n, depth):
+        """c ? x : P.map(x)  /  c ? P.map(x) : x  — the lookup must be taken exactly when P is non-empty"""
+        import itertools
+        c, t, e = n["c"], self.rs.value(n["then"]), self.rs.value(n["else"])
+
+        def is_map(x):
+            return x.get("k") == "MCall" and callee_name(x) == "map" and len(x.get("a", [])) == 1
+        if is_map(t) == is_map(e):
+            return None
+        lookup, ident, in_then = (t, e, True) if is_map(t) else (e, t, False)
+        if render(self.rs.value(ident)) != render(self.rs.value(lookup["a"][0])) or self.rs.path(ident) != self.rs.path(lookup["a"][0]):
+            return ("bad", "identity branch yields %s but the permutation is applied to %s" % (render(ident), render(lookup["a"][0])))
+        atoms = []
+        f = self.guard_formula(c, atoms)
+        if f is None:
+            return None
+        if not in_then:
+            f = ("not", f)
+        P = self.rs.path(lookup.get("obj"))
+        if P not in atoms:
+            if any(True for _ in atoms):
+                return ("bad", "the lookup through %s is guarded by the emptiness of %s only" % (P, ", ".join(map(repr, atoms))))
+            return None
+        ip = atoms.index(P)
+        for val in itertools.product((False, True), repeat=len(atoms)):
+            taken = GT.eval_formula(f, val)
+            if taken != val[ip]:
+                others = ", ".join("%s %s" % (a_, "non-empty" if v else "empty") for a_, v in zip(atoms, val) if a_ != P)
+                if val[ip]:
+                    return ("bad", "the permutation lookup %s is skipped although %s is non-empty (admissible input: %s; exactly one level permuted): "
+                                   "the guard %s is not equivalent to '%s is non-empty'" % (render(lookup)[:50], P, others or "-", render(self.rs.value(c))[:80], P))
+                return ("bad", "the permutation lookup %s is executed although %s is empty (%s): the guard %s is not equivalent to '%s is non-empty'" % (
+                    render(lookup)[:50], P, others or "-", render(self.rs.value(c))[:80], P))
+        return self.map_kind(lookup, depth)
 
     def map_kind(self, n, depth):
         pk = self.perm_kind(n.get("obj"))
